@@ -71,6 +71,25 @@ impl CustomNetwork {
                 .expect("Invalid chunk payments address"),
         }
     }
+
+    /// Same as `new`, for text the program does not control (environment variables, the local
+    /// testnet CSV file): a malformed URL or address is reported as an error instead of a panic.
+    fn try_new(
+        rpc_url: &str,
+        payment_token_addr: &str,
+        data_payments_addr: &str,
+    ) -> Result<Self, String> {
+        Ok(Self {
+            rpc_url_http: reqwest::Url::parse(rpc_url)
+                .map_err(|err| format!("invalid RPC URL {rpc_url:?}: {err}"))?,
+            payment_token_address: Address::from_str(payment_token_addr).map_err(|err| {
+                format!("invalid payment token address {payment_token_addr:?}: {err}")
+            })?,
+            data_payments_address: Address::from_str(data_payments_addr).map_err(|err| {
+                format!("invalid data payments address {data_payments_addr:?}: {err}")
+            })?,
+        })
+    }
 }
 
 #[derive(Clone, Debug, Default, PartialEq, Serialize, Deserialize)]
